@@ -30,6 +30,7 @@ META = {
     'assumptions': ['textbook definition of the eight rounding modes',
                     'quantum oracle: declared quantum / own scale walk; currencies: 10**-minor from own ISO parse'],
 }
+META['bounds'].append('mode_switch: MILLI / DECI / KILO * unit and three float * unit products re-evaluated under every mode of the job')
 
 DV_QUICK = ['B', 'b', 'kB', 'KiB', 'Tib', 'Mb']
 CUR_QUICK = ['EUR', 'JPY', 'KWD', 'CLF']
